@@ -32,6 +32,11 @@ import (
 	"testing"
 	"time"
 
+	"golang.org/x/tools/go/analysis"
+	"golang.org/x/tools/go/analysis/passes/ctrlflow"
+	"golang.org/x/tools/go/analysis/passes/inspect"
+	"golang.org/x/tools/go/ast/inspector"
+
 	"honnef.co/go/tools/go/ir"
 	"honnef.co/go/tools/go/ir/irutil"
 	irexec "honnef.co/go/tools/go/ir/zz_irexec"
@@ -43,24 +48,28 @@ var c01Inputs = []int{-1, 0, 1, 2}
 const c01Fuel = 200000
 
 type c01Mode struct {
-	Name string
-	Mode ir.BuilderMode
+	Name     string
+	Mode     ir.BuilderMode
+	NoReturn bool // build like internal/passes/buildir: Program.SetNoReturn(ctrlflow.CFGs.NoReturn)
 }
 
 var c01Modes = []c01Mode{
-	{"naive", ir.NaiveForm},
-	{"lifted", 0},
-	{"naive+debug", ir.NaiveForm | ir.GlobalDebug},
-	{"lifted+debug", ir.GlobalDebug},
+	{Name: "naive", Mode: ir.NaiveForm},
+	{Name: "lifted", Mode: 0},
+	{Name: "naive+debug", Mode: ir.NaiveForm | ir.GlobalDebug},
+	{Name: "lifted+debug", Mode: ir.GlobalDebug},
 }
 
+// c01BuildirMode is the configuration every staticcheck analyzer sees (internal/passes/buildir).
+var c01BuildirMode = c01Mode{Name: "buildir(lifted+debug+noreturn)", Mode: ir.GlobalDebug, NoReturn: true}
+
 var c01GenericModes = []c01Mode{
-	{"naive+instantiate", ir.NaiveForm | ir.InstantiateGenerics},
-	{"lifted+instantiate", ir.InstantiateGenerics},
+	{Name: "naive+instantiate", Mode: ir.NaiveForm | ir.InstantiateGenerics},
+	{Name: "lifted+instantiate", Mode: ir.InstantiateGenerics},
 }
 
 func c01ModeByName(name string) (c01Mode, bool) {
-	for _, m := range append(append([]c01Mode{}, c01Modes...), c01GenericModes...) {
+	for _, m := range append(append([]c01Mode{c01BuildirMode}, c01Modes...), c01GenericModes...) {
 		if m.Name == name {
 			return m, true
 		}
@@ -88,15 +97,47 @@ func obss(s string) { obsLog = append(obsLog, obsEnt{s: s, str: true}) }
 
 func c01Suffix(i int) string { return fmt.Sprintf("_%d", i) }
 
-func c01FuncsSource(progs []c01Prog) string {
-	var b strings.Builder
+// c01Sources is the package under test: funcs.go, plus funcs121.go (language version go1.21,
+// selected by a //go:build line, for programs that ask for the pre-1.22 loop variable
+// semantics). The same files are given to the toolchain and to the IR builder.
+type c01Sources struct {
+	names []string
+	texts []string
+}
+
+func c01FuncsSource(progs []c01Prog) c01Sources {
+	var b, old strings.Builder
 	b.WriteString(c01Prelude)
+	old.WriteString("//go:build go1.21\n\npackage main\n\n")
+	n121 := 0
 	for i, p := range progs {
-		fmt.Fprintf(&b, "// ---- program %d: %s/%d %s\n", i, p.Family, p.Index, p.Desc)
-		b.WriteString(p.Text(c01Suffix(i)))
-		b.WriteString("\n")
+		w := &b
+		if p.Go121 {
+			w = &old
+			n121++
+		}
+		fmt.Fprintf(w, "// ---- program %d: %s/%d %s\n", i, p.Family, p.Index, p.Desc)
+		w.WriteString(p.Text(c01Suffix(i)))
+		w.WriteString("\n")
 	}
-	return b.String()
+	src := c01Sources{names: []string{"funcs.go"}, texts: []string{b.String()}}
+	if n121 > 0 {
+		src.names = append(src.names, "funcs121.go")
+		src.texts = append(src.texts, old.String())
+	}
+	return src
+}
+
+func (s c01Sources) parse(fset *token.FileSet) ([]*ast.File, error) {
+	var files []*ast.File
+	for i := range s.names {
+		f, err := parser.ParseFile(fset, s.names[i], s.texts[i], parser.SkipObjectResolution|parser.ParseComments)
+		if err != nil {
+			return nil, err
+		}
+		files = append(files, f)
+	}
+	return files, nil
 }
 
 const c01MainPrelude = `package main
@@ -295,14 +336,14 @@ func c01MainSource(progs []c01Prog, nres []int) string {
 // ---------------------------------------------------------------------------------------------
 // E5: the compiled program
 
-var c01BuildSem = make(chan struct{}, 8)
+var c01BuildSem = make(chan struct{}, 6)
 
 type c01Infra struct{ msg string }
 
 func (e c01Infra) Error() string { return e.msg }
 
 // c01RunCompiled returns, per program, the 16 observation strings "result\tlog\tfinals".
-func c01RunCompiled(dir string, progs []c01Prog, funcsSrc string, nres []int) ([][]string, error) {
+func c01RunCompiled(dir string, progs []c01Prog, funcsSrc c01Sources, nres []int) ([][]string, error) {
 	if err := os.MkdirAll(dir, 0o755); err != nil {
 		return nil, err
 	}
@@ -311,8 +352,10 @@ func c01RunCompiled(dir string, progs []c01Prog, funcsSrc string, nres []int) ([
 	}
 	files := map[string]string{
 		"go.mod":   "module c01oracle\n\ngo 1.26.0\n",
-		"funcs.go": funcsSrc,
 		"main.go":  c01MainSource(progs, nres),
+	}
+	for i := range funcsSrc.names {
+		files[funcsSrc.names[i]] = funcsSrc.texts[i]
 	}
 	for name, text := range files {
 		if err := os.WriteFile(filepath.Join(dir, name), []byte(text), 0o644); err != nil {
@@ -320,7 +363,8 @@ func c01RunCompiled(dir string, progs []c01Prog, funcsSrc string, nres []int) ([
 		}
 	}
 	c01BuildSem <- struct{}{}
-	cmd := exec.Command("go", "build", "-o", "oracle.bin", ".")
+	// -N -l: no optimisation, no inlining (the language semantics are the same; the build is faster)
+	cmd := exec.Command("go", "build", "-gcflags=-N -l", "-ldflags=-s -w", "-o", "oracle.bin", ".")
 	cmd.Dir = dir
 	out, err := cmd.CombinedOutput()
 	<-c01BuildSem
@@ -381,16 +425,66 @@ type c01Built struct {
 	fset *token.FileSet
 }
 
-func c01BuildIR(src string, mode ir.BuilderMode) (*c01Built, error) {
+func c01BuildIR(src c01Sources, m c01Mode) (*c01Built, error) {
+	mode := m.Mode
 	fset := token.NewFileSet()
-	f, err := parser.ParseFile(fset, "funcs.go", src, parser.SkipObjectResolution)
+	files, err := src.parse(fset)
 	if err != nil {
 		return nil, err
 	}
-	pkg, _, err := irutil.BuildPackage(&types.Config{GoVersion: "go1.26"}, fset, types.NewPackage("main", "main"), []*ast.File{f}, mode)
+	if m.NoReturn {
+		return c01BuildLikeBuildir(fset, files, mode)
+	}
+	pkg, _, err := irutil.BuildPackage(&types.Config{GoVersion: "go1.26"}, fset, types.NewPackage("main", "main"), files, mode)
 	if err != nil {
 		return nil, err
 	}
+	return &c01Built{pkg: pkg, fset: fset}, nil
+}
+
+// c01BuildLikeBuildir builds the package the way internal/passes/buildir does: the ctrlflow
+// analyzer of x/tools is run on the type-checked package and its NoReturn predicate is
+// installed before building.
+func c01BuildLikeBuildir(fset *token.FileSet, files []*ast.File, mode ir.BuilderMode) (*c01Built, error) {
+	info := &types.Info{
+		Types:        make(map[ast.Expr]types.TypeAndValue),
+		Defs:         make(map[*ast.Ident]types.Object),
+		Uses:         make(map[*ast.Ident]types.Object),
+		Implicits:    make(map[ast.Node]types.Object),
+		Scopes:       make(map[ast.Node]*types.Scope),
+		Selections:   make(map[*ast.SelectorExpr]*types.Selection),
+		Instances:    make(map[*ast.Ident]types.Instance),
+		FileVersions: make(map[*ast.File]string),
+	}
+	tpkg := types.NewPackage("main", "main")
+	if err := types.NewChecker(&types.Config{GoVersion: "go1.26"}, fset, tpkg, info).Files(files); err != nil {
+		return nil, err
+	}
+	facts := map[types.Object]analysis.Fact{}
+	pass := &analysis.Pass{
+		Analyzer:   ctrlflow.Analyzer,
+		Fset:       fset,
+		Files:      files,
+		Pkg:        tpkg,
+		TypesInfo:  info,
+		TypesSizes: types.SizesFor("gc", "amd64"),
+		ResultOf:   map[*analysis.Analyzer]any{inspect.Analyzer: inspector.New(files)},
+		Report:     func(analysis.Diagnostic) {},
+		ImportObjectFact: func(obj types.Object, fact analysis.Fact) bool {
+			_, ok := facts[obj]
+			return ok
+		},
+		ExportObjectFact: func(obj types.Object, fact analysis.Fact) { facts[obj] = fact },
+	}
+	r, err := ctrlflow.Analyzer.Run(pass)
+	if err != nil {
+		return nil, err
+	}
+	cfgs := r.(*ctrlflow.CFGs)
+	prog := ir.NewProgram(fset, mode)
+	prog.SetNoReturn(cfgs.NoReturn)
+	pkg := prog.CreatePackage(tpkg, files, info, false)
+	pkg.Build()
 	return &c01Built{pkg: pkg, fset: fset}, nil
 }
 
@@ -518,13 +612,13 @@ func c01RunBatch(res *vx.Result, dir string, progs []c01Prog, modes []c01Mode, v
 	// type-check once to learn the result arity of every entry point (and to catch
 	// generator bugs before they reach the builder)
 	fset := token.NewFileSet()
-	file, err := parser.ParseFile(fset, "funcs.go", src, parser.SkipObjectResolution)
+	files, err := src.parse(fset)
 	if err != nil {
 		res.Note("generator bug (batch starting at %s/%d): %v", progs[0].Family, progs[0].Index, err)
 		res.NotExhaustive("generated source did not parse")
 		return
 	}
-	tpkg, err := (&types.Config{GoVersion: "go1.26"}).Check("main", fset, []*ast.File{file}, nil)
+	tpkg, err := (&types.Config{GoVersion: "go1.26"}).Check("main", fset, files, nil)
 	if err != nil {
 		res.Note("generator bug (batch starting at %s/%d): %v", progs[0].Family, progs[0].Index, err)
 		res.NotExhaustive("generated source did not type-check")
@@ -556,9 +650,9 @@ func c01RunBatch(res *vx.Result, dir string, progs []c01Prog, modes []c01Mode, v
 	}()
 
 	if modes == nil {
-		modes = c01Modes
+		modes = append(append([]c01Mode{}, c01Modes...), c01BuildirMode)
 		if generic {
-			modes = append(append([]c01Mode{}, c01Modes...), c01GenericModes...)
+			modes = append(modes, c01GenericModes...)
 		}
 	}
 	type modeResult struct {
@@ -572,7 +666,7 @@ func c01RunBatch(res *vx.Result, dir string, progs []c01Prog, modes []c01Mode, v
 	for mi, m := range modes {
 		t0 := time.Now()
 		var built *c01Built
-		crash := vx.Catch(func() { built, err = c01BuildIR(src, m.Mode) })
+		crash := vx.Catch(func() { built, err = c01BuildIR(src, m) })
 		atomic.AddInt64(&c01Global.buildNs, int64(time.Since(t0)))
 		if crash != "" || err != nil {
 			mres[mi] = modeResult{err: err, crash: crash}
@@ -638,7 +732,7 @@ func c01RunBatch(res *vx.Result, dir string, progs []c01Prog, modes []c01Mode, v
 	// statistics, once per program (features from the lifted, non-debug IR)
 	var lifted *c01Built
 	for mi, m := range modes {
-		if m.Mode == 0 && mres[mi].built != nil {
+		if m.Mode == 0 && !m.NoReturn && mres[mi].built != nil {
 			lifted = mres[mi].built
 		}
 	}
@@ -730,12 +824,12 @@ func c01Tail2(s string, n int) string {
 // ---------------------------------------------------------------------------------------------
 // the test
 
-// The L spaces. Lq (quick): depth 1, <= 2 hole statements, no leading hole. Lt (thorough):
-// depth 1 with <= 3 statements and a leading hole, then depth 2 with <= 1 statement. The
-// family name of a program records the space its index refers to.
+// The L spaces. Lq (quick): depth-1 skeletons, 0..2 hole statements, no leading hole.
+// Lt (thorough): leading hole; depth 1 with 0..2 statements, then depth 2 with 0..1, then depth 1
+// with 3 statements. The family name of a program records the space its index refers to.
 var c01LSpaces = map[string]c01LSpace{
-	"Lq": {Name: "Lq", MaxN: [3]int{0, 2, -1}, Leading: false},
-	"Lt": {Name: "Lt", MaxN: [3]int{0, 3, 1}, Leading: true},
+	"Lq": {Name: "Lq", Stages: [][2]int{{1, 0}, {1, 1}, {1, 2}}, Leading: false},
+	"Lt": {Name: "Lt", Stages: [][2]int{{1, 0}, {1, 1}, {1, 2}, {2, 0}, {2, 1}, {1, 3}}, Leading: true},
 }
 
 func c01Spaces() (c01LSpace, int) {
@@ -846,10 +940,12 @@ func TestVerifC01(t *testing.T) {
 
 	var wg sync.WaitGroup
 	workers := runtime.GOMAXPROCS(0)
-	if workers > 16 {
-		workers = 16
+	if workers > vx.Pick(6, 8) {
+		// a batch is dominated by one `go build` (itself parallel); few concurrent batches also
+		// keep the time budget effective, since it is checked when a batch starts
+		workers = vx.Pick(6, 8)
 	}
-	var seq int64
+	var seq, skipped int64
 	shardI, shardN := vx.Shard()
 	maxBatches := 1 << 30
 	if v := os.Getenv("C01_MAXBATCHES"); v != "" { // debugging aid
@@ -869,7 +965,9 @@ func TestVerifC01(t *testing.T) {
 					continue
 				}
 				if res.Expired() {
-					res.NotExhaustive(fmt.Sprintf("time budget reached before batch starting at %s/%d", b[0].Family, b[0].Index))
+					if atomic.AddInt64(&skipped, int64(len(b))) == int64(len(b)) {
+						res.NotExhaustive(fmt.Sprintf("time budget reached: batches from %s/%d on were not run", b[0].Family, b[0].Index))
+					}
 					continue
 				}
 				c01RunBatch(res, filepath.Join(scratch, fmt.Sprintf("b%d", k)), b, nil, false)
@@ -877,6 +975,9 @@ func TestVerifC01(t *testing.T) {
 		}()
 	}
 	wg.Wait()
+	if skipped > 0 {
+		res.Count("programs_not_run_time_budget", skipped)
+	}
 	c01Finish(res)
 }
 
